@@ -64,6 +64,16 @@ try:
     meta = json.load(open(os.path.join(src, "meta.json")))
 except Exception:
     pass
+# keep the outcome of earlier evaluations (e.g. "missed at first, reported after the check was strengthened")
+try:
+    old = json.load(open(os.path.join(dst, "meta.json")))
+    hist = old.get("earlier_evaluations", [])
+    if "detected_by" in old:
+        hist.append({"detected_by": old["detected_by"], "checks_run": old.get("checks_run"), "verif_commit": old.get("verif_commit")})
+    meta["earlier_evaluations"] = hist
+except Exception:
+    pass
+meta["verif_commit"] = sh("git -C %s log --format=%%h -1" % ("/verif"))[1].strip() + (" (snapshot)" if V != "/verif" else "")
 meta.update({"breaks_property": prop, "confirmation": {k: res[k] for k in res if k not in ("detection",)},
              "checks_run": checks, "detection": det, "detected_by": res["detected_by"],
              "how_to_reproduce": "git -C /repo apply /verif/seeded/%s_%s/patch.diff; (cd /verif && ./check <id>); git -C /repo checkout -- ." % (prop, m)})
